@@ -149,13 +149,30 @@ def row_values(sc: dict, i: int) -> dict:
     return vals
 
 
+def labels_of(sc: dict) -> list:
+    """Row labels of the scan table by the configuration's label scheme.  Labels are only carried: rows are identified
+    by position, so labels may repeat (two batches concatenated without re-indexing)."""
+    n = sc["cfg"]["n"]
+    scheme = sc["cfg"].get("labels", "shuffled")
+    if scheme == "range":
+        return list(range(n))
+    if scheme == "strings":
+        return [f"r{lab}" for lab in LABELS[:n]]
+    if scheme == "repeated":
+        return [("A", "B")[i % 2] for i in range(n)]
+    return list(LABELS[:n])
+
+
 def table(sc: dict):
     import pandas as pd
 
     n = sc["cfg"]["n"]
     rows = [row_values(sc, i) for i in range(1, n + 1)]
     cols = list(rows[0])
-    return pd.DataFrame({real(sc, c): [r[c] for r in rows] for c in cols}, index=LABELS[:n])
+    df = pd.DataFrame({real(sc, c): [r[c] for r in rows] for c in cols})
+    if sc["cfg"].get("labels", "shuffled") != "range":      # "range": the default RangeIndex
+        df.index = pd.Index(labels_of(sc))
+    return df
 
 
 def protocol_frame(scheme: str = "plain"):
